@@ -39,7 +39,7 @@ Definition model_ok (c : case) : bool :=
       && match reg with
          | None => match resolve_gen fuel tb argv [root] tree with Ok _ => false | Err _ => true end
          | Some ps => match resolve_gen fuel tb argv [root] tree with
-                      | Ok r => paths_seteq (registered [root] r) ps
+                      | Ok r => paths_seteq (registered_gen [root] r) ps
                       | Err _ => false
                       end
          end
